@@ -21,6 +21,13 @@ CHECKS = {
         note="Trusted: ASE extend/delete semantics (new atoms get zero in a custom array), harness criteria implementing only the documented protocol. One proposal value per draw; <= 5 atoms at start.",
         technique="stateless exhaustive exploration of the implementation against a particle-id reference model compared after every trial",
     ),
+    "C04": dict(
+        category="model_checking",
+        text="The C03 history exploration (all accept/reject/fail histories, depth 2 quick / 3-5 thorough) crossed with calculator caching styles (caching ASE Calculator, stateless non-Calculator object, per-atom-state harness calculator, ASE LennardJones, ASE EMT) and a real logger attached: after every trial a side-effect-free probe compares the energy the calculator would report and context.last_potential_energy with a from-scratch evaluation by an independent instance on atoms.copy(), the remembered positions/cell with the current ones, counts evaluations against trials that reached a criteria, and forces one further evaluation at the end of every history.",
+        design_ref="4-C04",
+        note="Trusted: ASE Calculator.check_state/results semantics (the probe reads them instead of calling get_potential_energy, so it cannot repair a stale cache), harness calculators.",
+        technique="stateless exhaustive exploration of the implementation with an independent-recomputation oracle and an evaluation counter",
+    ),
 }
 
 NA_REASON = "check not built yet in this session (design in DESIGN.md); no claim is made"
